@@ -331,8 +331,10 @@ func flowAlphabet(v9 bool) map[string]pdgram {
 		"unknown-tpl":   {"unknown-tpl", expB, enc(ref.Set{Kind: ref.SetRaw, RawID: 999, RawBody: []byte{1, 2, 3, 4, 5, 6, 7, 8}})},
 		"wrong-version": {"wrong-version", expA, bad},
 		"truncated":     {"truncated", expA, good[:len(good)-3]},
-		"inband-tpl":    {"inband-tpl", expB, enc(ref.Set{Kind: ref.SetTemplates, Templates: []ref.Template{{ID: 400, Fields: t1.Fields}}})},
-		"inband-data":   {"inband-data", expB, (&ref.Msg{V9: v9, Hdr: [5]uint32{1, 1, 2, 3, 4}, Sets: []ref.Set{{Kind: ref.SetData, TemplateID: 400, Records: []ref.Record{flowRec(t1, 90)}}}}).Encode(map[uint16]ref.Template{400: {ID: 400, Fields: t1.Fields}})},
+		// a decodable data set, a set of an unknown template, another decodable one: decodes with a (non-fatal) error AND yields records
+		"data+unknown-set": {"data+unknown-set", expA, enc(ds(t1, 80), ref.Set{Kind: ref.SetRaw, RawID: 998, RawBody: []byte{9, 9, 9, 9}}, ds(t1, 81))},
+		"inband-tpl":       {"inband-tpl", expB, enc(ref.Set{Kind: ref.SetTemplates, Templates: []ref.Template{{ID: 400, Fields: t1.Fields}}})},
+		"inband-data":      {"inband-data", expB, (&ref.Msg{V9: v9, Hdr: [5]uint32{1, 1, 2, 3, 4}, Sets: []ref.Set{{Kind: ref.SetData, TemplateID: 400, Records: []ref.Record{flowRec(t1, 90)}}}}).Encode(map[uint16]ref.Template{400: {ID: 400, Fields: t1.Fields}})},
 	}
 }
 
@@ -660,7 +662,7 @@ func explorePipe(c *mck.Ctx, it pipeItem, body func(out *pipeObs, mu *realsync.M
 			mu.Unlock()
 			if g := fmt.Sprint(o, r.FailSig, r.Steps); g != firstObs[i] {
 				fmt.Fprintf(os.Stderr, "determinism gate failed (%s): schedule %v observed %q then %q\n", it.name, ch, firstObs[i], g)
-				os.Exit(2)
+				os.Exit(3)
 			}
 		}}, bodyFn)
 	}
@@ -837,6 +839,21 @@ func c01Items(tier string) []pipeItem {
 	return out
 }
 
+// C18 (concurrent part): the configured filter list is ONE slice shared by all sFlow workers - two workers
+// on datagrams whose samples hit different entries of a three-entry filter.
+func c18Items(tier string) []pipeItem {
+	b := 1
+	if tier == "thorough" {
+		b = 3
+	}
+	al := alphabet(ppSFlow)
+	var out []pipeItem
+	for _, f := range [][]uint32{{7, 2, 9}, {9, 7, 1}, {2, 7, 1}} {
+		out = append(out, pipeItem{fmt.Sprintf("two workers, filter %v", f), pipeRun{proto: ppSFlow, workers: 2, seq: seqOf(al, "dataA-long", "dataB-short", "dataA-mid"), filter: f}, b})
+	}
+	return out
+}
+
 // C08 (concurrent part): the v5 decode + JSON rendering run by two workers on datagrams with different
 // addresses - every document published must still be the one of its own datagram.
 func c08Items(tier string) []pipeItem {
@@ -894,6 +911,14 @@ func c13Items(tier string) []pipeItem {
 				out = append(out, pipeItem{strings.Join(s, ","), pipeRun{proto: p, workers: w, seq: seqOf(al, s...), cache: cache, filter: filter}, b})
 			}
 		}
+		if p == ppIPFIX || p == ppV9 {
+			// a datagram that is decoded with a non-fatal error and still yields records: counted as decoded, published once
+			for _, sq := range [][]string{{"data+unknown-set"}, {"data+unknown-set", "dataB-short"}, {"unknown-tpl", "data+unknown-set"}} {
+				for _, w := range []int{1, 2} {
+					out = append(out, pipeItem{strings.Join(sq, ","), pipeRun{proto: p, workers: w, seq: seqOf(al, sq...), cache: cache}, 1})
+				}
+			}
+		}
 		// the receive queue holds one datagram: the receive loop has to wait for the workers
 		out = append(out, pipeItem{"receive queue of 1: dataB-short,dataA-mid,dataB-short", pipeRun{proto: p, workers: 1, seq: seqOf(al, "dataB-short", "dataA-mid", "dataB-short"), cache: cache, filter: filter, udpCap: 1}, 2})
 		if p == ppSFlow { // the type filter configured: a datagram whose samples are all filtered
@@ -913,9 +938,13 @@ type shutItem struct {
 	inflight []string // datagrams delivered around the signal
 	after    int      // how many of them are delivered AFTER the signal
 	bound    int
-	shrink   bool // second cycle: the acknowledged template is re-announced with fewer fields (the dump shrinks)
-	waitRead bool // send the signal only once the receive loop has read (counted) the datagrams delivered before it
-	once     bool // one start-stop cycle instead of two
+	shrink   bool  // second cycle: the acknowledged template is re-announced with fewer fields (the dump shrinks)
+	waitRead bool  // send the signal only once the receive loop has read (counted) the datagrams delivered before it
+	once     bool  // one start-stop cycle instead of two
+	downtime int64 // virtual ns between the exit and the restart (the collector is down for that long)
+	// early: between the two cycles the collector is started once more and gets the signal AT ONCE - as soon as
+	// main has installed its handler, without waiting for the listeners, without any traffic or look at the counters
+	early bool
 }
 
 // mainReplica is main()'s orchestration (vflow.go: start every protocol, wait for the signal,
@@ -981,6 +1010,10 @@ func runShutdown(it shutItem, al map[string]pdgram, cacheFile string, out *shutO
 				// T1 is acknowledged: delivered and fully processed before anything else happens
 				conn.Deliver(al["template"].ip, 50000, al["template"].wire)
 				sched.Quiesce()
+				if d, ok := al["opt-template"]; ok {
+					conn.Deliver(d.ip, 50000, d.wire)
+					sched.Quiesce()
+				}
 			}
 		} else if it.proto == ppIPFIX || it.proto == ppV9 {
 			// after the restart: data for T1 must decode at once, without the template being resent
@@ -1035,6 +1068,9 @@ func runShutdown(it shutItem, al map[string]pdgram, cacheFile string, out *shutO
 		// draining the closed queue) run out before the "new process" re-creates the globals
 		sched.Quiesce()
 		sched.ProcessBoundary()
+		if it.downtime > 0 && cycle == 0 {
+			sched.Sleep(it.downtime)
+		}
 		if it.proto == ppIPFIX || it.proto == ppV9 {
 			// the file left behind must load and hold T1
 			k := al["template"]
@@ -1064,6 +1100,35 @@ func runShutdown(it shutItem, al map[string]pdgram, cacheFile string, out *shutO
 				}
 			}
 		}
+		if it.early && cycle == 0 {
+			o.phase = "start-up signal: start"
+			set()
+			pr := resetPipe(pipeCfg{proto: it.proto, workers: it.workers, udpCap: it.udpCap, mqCap: 1000, cache: cacheFile})
+			mainTid := sched.GoNamed("main", func() { mainReplica([]proto{pr}) })
+			sched.WaitCond(func() bool { return venv.SignalChan() != nil }, "signal handler installed")
+			sendSignal()
+			t0 := sched.Now()
+			o.phase = "start-up signal: waiting for exit"
+			set()
+			sched.Join(mainTid)
+			if d := sched.Now() - t0; d > o.exitNs {
+				o.exitNs = d
+			}
+			sched.Quiesce()
+			sched.ProcessBoundary()
+			if (it.proto == ppIPFIX || it.proto == ppV9) && o.fileErr == "" {
+				k := al["template"]
+				ok := false
+				if it.proto == ppIPFIX {
+					_, ok = ipfix.VerifRetrieve(ipfix.GetCache(cacheFile), 300, append(net.IP{}, k.ip...))
+				} else {
+					_, ok = netflow9.VerifRetrieve(netflow9.GetCache(cacheFile), 300, append(net.IP{}, k.ip...))
+				}
+				if !ok {
+					o.fileErr = "a start that was stopped at once by a signal left a cache file without the template saved by the run before"
+				}
+			}
+		}
 		o.phase = fmt.Sprintf("cycle %d: done", cycle)
 		set()
 	}
@@ -1074,12 +1139,15 @@ func runShutdown(it shutItem, al map[string]pdgram, cacheFile string, out *shutO
 func c15LockItems(tier string) []shutItem {
 	var out []shutItem
 	for _, p := range []int{ppIPFIX, ppV9} {
-		out = append(out, shutItem{"template read right before the signal", p, 1, 1000, []string{"dataB-short", "inband-tpl"}, 0, 2, false, true, true})
+		out = append(out, shutItem{"template read right before the signal", p, 1, 1000, []string{"dataB-short", "inband-tpl"}, 0, 2, false, true, true, 0, false})
+		// the collector stays down for two hours (the cache code reads the virtual clock in this build)
+		out = append(out, shutItem{"restart after two hours of downtime", p, 1, 1000, []string{"dataB-short"}, 0, 1, false, false, false, 7200e9, false})
 		if tier == "thorough" {
-			out = append(out, shutItem{"template read right before the signal", p, 1, 1000, []string{"dataB-short", "inband-tpl"}, 0, 2, false, true, false})
-			out = append(out, shutItem{"template read right before the signal", p, 2, 1000, []string{"dataB-short", "inband-tpl"}, 0, 2, false, true, false})
-			out = append(out, shutItem{"template read right before the signal", p, 1, 1, []string{"inband-tpl", "dataB-short"}, 0, 2, false, true, false})
-			out = append(out, shutItem{"template burst around the signal", p, 1, 1000, []string{"inband-tpl", "inband-data", "template", "dataB-short"}, 2, 1, false, true, false})
+			out = append(out, shutItem{"restart after 400 days of downtime", p, 2, 1000, []string{"dataB-short"}, 0, 1, false, false, false, 400 * 86400e9, false})
+			out = append(out, shutItem{"template read right before the signal", p, 1, 1000, []string{"dataB-short", "inband-tpl"}, 0, 2, false, true, false, 0, false})
+			out = append(out, shutItem{"template read right before the signal", p, 2, 1000, []string{"dataB-short", "inband-tpl"}, 0, 2, false, true, false, 0, false})
+			out = append(out, shutItem{"template read right before the signal", p, 1, 1, []string{"inband-tpl", "dataB-short"}, 0, 2, false, true, false, 0, false})
+			out = append(out, shutItem{"template burst around the signal", p, 1, 1000, []string{"inband-tpl", "inband-data", "template", "dataB-short"}, 2, 1, false, true, false, 0, false})
 		}
 	}
 	return out
@@ -1092,28 +1160,30 @@ func c15Items(tier string) []shutItem {
 		if tier == "thorough" {
 			for _, w := range []int{1, 2} {
 				for _, cap := range []int{1000, 1} {
-					out = append(out, shutItem{"idle", p, w, cap, nil, 0, 3, false, false, false})
-					out = append(out, shutItem{"data before the signal", p, w, cap, []string{"dataB-short", "dataA-mid"}, 0, 2, false, false, false})
-					out = append(out, shutItem{"data around the signal", p, w, cap, []string{"dataB-short", "dataA-mid", "dataB-short"}, 2, 2, false, false, false})
+					out = append(out, shutItem{"idle", p, w, cap, nil, 0, 3, false, false, false, 0, false})
+					out = append(out, shutItem{"data before the signal", p, w, cap, []string{"dataB-short", "dataA-mid"}, 0, 2, false, false, false, 0, false})
+					out = append(out, shutItem{"data around the signal", p, w, cap, []string{"dataB-short", "dataA-mid", "dataB-short"}, 2, 2, false, false, false, 0, false})
 					if flow {
-						out = append(out, shutItem{"template burst around the signal", p, w, cap, []string{"inband-tpl", "inband-data", "template", "dataB-short"}, 2, 2, false, false, false})
+						out = append(out, shutItem{"template burst around the signal", p, w, cap, []string{"inband-tpl", "inband-data", "template", "dataB-short"}, 2, 2, false, false, false, 0, false})
 					}
 				}
 			}
+			out = append(out, shutItem{"signal during start-up between two runs", p, 2, 1000, nil, 0, 2, false, false, false, 0, true})
 			continue
 		}
-		out = append(out, shutItem{"idle", p, 1, 1000, nil, 0, 2, false, false, false})
+		out = append(out, shutItem{"idle", p, 1, 1000, nil, 0, 2, false, false, false, 0, false})
 		b := 1
 		if p == ppIPFIX || p == ppSFlow {
 			b = 2
 		}
-		out = append(out, shutItem{"data before the signal", p, 1, 1000, []string{"dataB-short", "dataA-mid"}, 0, b, false, false, false})
-		out = append(out, shutItem{"data around the signal", p, 1, 1, []string{"dataB-short", "dataA-mid", "dataB-short"}, 2, 1, false, false, false})
-		out = append(out, shutItem{"data around the signal", p, 2, 1000, []string{"dataB-short", "dataA-mid"}, 1, 1, false, false, false})
+		out = append(out, shutItem{"data before the signal", p, 1, 1000, []string{"dataB-short", "dataA-mid"}, 0, b, false, false, false, 0, false})
+		out = append(out, shutItem{"data around the signal", p, 1, 1, []string{"dataB-short", "dataA-mid", "dataB-short"}, 2, 1, false, false, false, 0, false})
+		out = append(out, shutItem{"data around the signal", p, 2, 1000, []string{"dataB-short", "dataA-mid"}, 1, 1, false, false, false, 0, false})
 		if flow {
-			out = append(out, shutItem{"template burst around the signal", p, 2, 1000, []string{"inband-tpl", "inband-data", "template", "dataB-short"}, 2, 1, false, false, false})
-			out = append(out, shutItem{"template re-announced shorter before the second stop", p, 1, 1000, nil, 0, 1, true, false, false})
+			out = append(out, shutItem{"template burst around the signal", p, 2, 1000, []string{"inband-tpl", "inband-data", "template", "dataB-short"}, 2, 1, false, false, false, 0, false})
+			out = append(out, shutItem{"template re-announced shorter before the second stop", p, 1, 1000, nil, 0, 1, true, false, false, 0, false})
 		}
+		out = append(out, shutItem{"signal during start-up between two runs", p, 1, 1000, nil, 0, 1, false, false, false, 0, true})
 	}
 	return out
 }
@@ -1132,6 +1202,13 @@ func c15SpaceOf(its []shutItem, K int) mck.Space {
 			_, t1, _ := flowTemplates(it.proto == ppV9)
 			t := ref.Template{ID: 300, Fields: t1.Fields}
 			short := ref.Template{ID: 300, Fields: t1.Fields[:1]}
+			// an options template (scope + option fields) of the same exporter: cache files hold those too
+			opt := ref.Template{ID: 310, Options: true, Scope: []ref.Field{t1.Fields[0]}, Fields: t1.Fields[1:]}
+			osz := ref.Set{Kind: ref.SetTemplates, Templates: []ref.Template{opt}}
+			if it.proto == ppV9 {
+				osz.Pad = (4 - (6+4*len(opt.All()))%4) % 4
+			}
+			al["opt-template"] = pdgram{"opt-template", expA, (&ref.Msg{V9: it.proto == ppV9, Hdr: [5]uint32{1, 9, 9, 9, 8}, Sets: []ref.Set{osz}}).Encode(nil)}
 			al["template-short"] = pdgram{"template-short", expA, (&ref.Msg{V9: it.proto == ppV9, Hdr: [5]uint32{1, 9, 9, 9, 9}, Sets: []ref.Set{{Kind: ref.SetTemplates, Templates: []ref.Template{short}}}}).Encode(nil)}
 			al["t1-data"] = pdgram{"t1-data", expA, (&ref.Msg{V9: it.proto == ppV9, Hdr: [5]uint32{1, 5, 6, 7, 8}, Sets: []ref.Set{{Kind: ref.SetData, TemplateID: 300, Records: []ref.Record{flowRec(t, 33)}}}}).Encode(map[uint16]ref.Template{300: t})}
 		}
@@ -1169,7 +1246,7 @@ func c15SpaceOf(its []shutItem, K int) mck.Space {
 				if s.phase != "cycle 1: done" && !(it.once && s.phase == "cycle 0: done") {
 					return name + ":shutdown:did-not-finish", "the harness stopped in phase: " + s.phase
 				}
-				if s.exitNs > 3e9 {
+				if s.exitNs > 10e9 { // "within a few seconds"
 					return name + ":shutdown:slow-exit", fmt.Sprintf("the collector needed %.1f virtual seconds to exit after the signal", float64(s.exitNs)/1e9)
 				}
 				if s.fileErr != "" {
@@ -1217,6 +1294,7 @@ var pipeSpaces = map[string]func(string) mck.Space{
 	"pipe.c12":      pipeSpace(c12Items, 2),
 	"pipe.c08":      pipeSpace(c08Items, 4),
 	"pipe.c01":      pipeSpace(c01Items, 2),
+	"pipe.c18":      pipeSpace(c18Items, 4),
 	"pipe.c13":      pipeSpace(c13Items, 1),
 }
 
